@@ -403,7 +403,18 @@ def main(prop):
     if not b.driver_ok and prop.use_driver:
         print('NOTE: Lean driver unavailable; correspondence cannot run, going straight to failing-input search')
     rng = random.Random('%s/%s/%s' % (prop.id, seed, tier))
-    cases = prop.corpus_cases() + list(prop.cases(rng, tier))
+    gen_error = None
+    try:
+        cases = prop.corpus_cases() + list(prop.cases(rng, tier))
+    except Exception:
+        # the generators build their inputs with the repository's own classes (frames, payloads, builders); they complete on the unchanged
+        # tree, so an exception here means the code under test changed under them: a broken tie, not an infrastructure error
+        import traceback
+        gen_error = traceback.format_exc()
+        try:
+            cases = prop.corpus_cases()
+        except Exception:
+            cases = []
     results = run_cases(prop, cases, with_model=b.driver_ok and prop.use_driver)
 
     infra = [r for r in results if r['err']]
@@ -447,11 +458,18 @@ def main(prop):
         broken.append('correspondence %s: the scenario cannot be evaluated on %d of %d cases (it completes on the unchanged tree; now: %s)' % (
             prop.id, len(unevaluable), len(results) + len(unevaluable), first_line))
 
+    if gen_error:
+        broken.append('correspondence %s: the case generator, which builds its inputs with the repository\'s own classes, raised (it completes on the unchanged tree): %s' % (
+            prop.id, ' | '.join([x.strip() for x in gen_error.splitlines() if x.strip()][-3:])[:500]))
+
     searched = 0
     if broken and not [1 for (r, o) in oracle_fail if (prop.id, o['signature']) not in known_sigs]:
         # a tie is broken but no failing input yet: widened search against the real code
         rng2 = random.Random('%s/%s/widen' % (prop.id, seed))
-        extra = list(prop.widen(rng2, tier))
+        try:
+            extra = list(prop.widen(rng2, tier))
+        except Exception:
+            extra = []
         searched = len(extra)
         res2 = run_cases(prop, extra, with_model=False)
         oracle_fail += [(r, o) for r in res2 if not r['err'] for o in r['oracle']]
